@@ -130,7 +130,8 @@ def method_summary(crate, m, flag):
     if key in _SUMM:
         return _SUMM[key]
     _SUMM[key] = None
-    if flag.kind != "enum" or m.nargs != 1 or m.local_ty(0) != "bool" or not m.local_ty(1).startswith("&mut " + flag.enum):
+    # (the answer may also be a `Result<(), E>`: Ok plays the part of `true`)
+    if flag.kind != "enum" or m.nargs != 1 or not (m.local_ty(0) == "bool" or m.local_ty(0).startswith("std::result::Result<(), ")) or not m.local_ty(1).startswith("&mut " + flag.enum):
         return None
     e = crate.adts[flag.enum]
     name_of = {v["idx"]: v["name"] for v in e["variants"]}
@@ -158,6 +159,8 @@ def method_summary(crate, m, flag):
                 val = None
                 if rv["k"] == "aggregate" and rv.get("adt") == flag.enum:
                     val = rv.get("variant")
+                elif rv["k"] == "aggregate" and rv.get("variant") in ("Ok", "Err") and not p_["pr"] and p_["l"] == 0:
+                    val = rv.get("variant") == "Ok"
                 elif rv["k"] == "use" and rv["op"].get("k") == "const":
                     val = rv["op"].get("v") if isinstance(rv["op"].get("v"), bool) else (rv["op"].get("variant") or "?")
                 elif rv["k"] == "use" and is_place(rv["op"]):
@@ -271,6 +274,39 @@ def tests(sup, flag):
             if CLEAR in edges and SET in edges:
                 out.append({"node": n, "edges": edges, "how": "discr"})
             continue
+        if flag.kind == "enum":
+            # `self.slot.claim()?` / `match self.slot.claim() { Ok(()) => .., Err(e) => .. }` with claim() a method of the
+            # flag's own type that answers with a Result
+            done = False
+            for s in blk["stmts"]:
+                if not (s["k"] == "assign" and s["rv"]["k"] == "discr" and not s["rv"]["p"]["pr"]):
+                    continue
+                ds = b.whole_defs(s["rv"]["p"]["l"])
+                if len(ds) != 1 or ds[0][2] != "call":
+                    continue
+                oc = ds[0][3]
+                via_try = (fn_of(oc) or {}).get("def") == "std::ops::Try::branch" and oc["args"] and is_place(oc["args"][0]) and not oc["args"][0]["p"]["pr"]
+                if via_try:
+                    ds2 = b.whole_defs(oc["args"][0]["p"]["l"])
+                    if len(ds2) != 1 or ds2[0][2] != "call":
+                        continue
+                    oc = ds2[0][3]
+                f_ = fn_of(oc) or {}
+                mcal_ = b.crate.by_id.get(f_.get("resolved") or f_.get("def")) if f_.get("local") else None
+                summ_ = method_summary(b.crate, mcal_, flag) if (mcal_ is not None and len(oc["args"]) == 1 and _reads_field(b, oc["args"][0], flag)) else None
+                if summ_ is None:
+                    continue
+                ok_e = enum_edge(b, n[1], 0)   # Ok / Continue
+                err_e = enum_edge(b, n[1], 1)  # Err / Break
+                if not ok_e or not err_e:
+                    continue
+                true_e_, false_e_ = edge(ok_e[1], ok_e[2]), edge(err_e[1], err_e[2])
+                clear_e, set_e = (true_e_, false_e_) if summ_[CLEAR][0] is True else (false_e_, true_e_)
+                finals = {summ_[CLEAR][1], summ_[SET][1]}
+                out.append({"node": n, "edges": {CLEAR: clear_e, SET: set_e}, "how": "replace", "wrote": SET if finals == {SET} else (CLEAR if finals == {CLEAR} else None)})
+                done = True
+            if done:
+                continue
         if t.get("discr_ty") != "bool" or not zero or not is_place(t["discr"]):
             continue
         false_e, true_e = edge(0, zero[0]), edge("otherwise", t["otherwise"])
